@@ -378,7 +378,9 @@ impl Parser {
                             }
                         }
                     },
-                    Lexem::Operator(s) if s.to_lowercase() == "rx" => {
+                    Lexem::Operator(s)
+                        if s.to_lowercase() == "rx" || s.to_lowercase() == "regexp" =>
+                    {
                         regexp = true;
                         mode = RootParsingMode::Options;
                     }
